@@ -416,3 +416,24 @@ package floatingip
 //@   ensures [C08,C05:multi-failure-leaves-tables] result1 != nil ==> tablesSame(ci)
 //@   ensures [C04:multi-store-only-adds] forall k string :: old(StoreDom[k]) ==> storeSameAt(k)
 //@   modifies all
+
+// ---- NodeSubnetsByIPRanges (filter side of C06): every offered node subnet can serve EVERY requested range ----
+// poolIndexOK: every free entry's pool is the pool found at its index (I5 of DESIGN.md)
+//@ pure poolIndexOK(ci *crdIpam) bool = forall k string :: k in ci.unallocatedFIPs ==> 0 <= ci.unallocatedFIPs[k].pool.index && ci.unallocatedFIPs[k].pool.index < len(ci.FloatingIPs) && ci.FloatingIPs[ci.unallocatedFIPs[k].pool.index] == ci.unallocatedFIPs[k].pool
+//@ pure servable(ci *crdIpam, s string, rs []nets.IPRange) bool = exists k string :: k in ci.unallocatedFIPs && inRanges(rs, k) && hasSubnet(ci.unallocatedFIPs[k].pool, s)
+//@ pure idxFrom(ci *crdIpam, set sets.Int, rs []nets.IPRange) bool = set != nil && fresh(set) && forall x int :: x in set ==> exists k string :: k in ci.unallocatedFIPs && inRanges(rs, k) && ci.unallocatedFIPs[k].pool.index == x
+//@ pure idxFromAny(ci *crdIpam, set sets.Int) bool = set != nil && fresh(set) && forall x int :: x in set ==> exists k string :: k in ci.unallocatedFIPs && ci.unallocatedFIPs[k].pool.index == x
+//@ func [C06,C18] (*crdIpam).NodeSubnetsByIPRanges
+//@   requires inv(ci) && synced(ci) && poolIndexOK(ci) && held[ptr(ci.cacheLock)] == 0
+//@   requires forall i int, r int {ipranges[i][r]} :: 0 <= i && i < len(ipranges) && 0 <= r && r < len(ipranges[i]) ==> nets.wfRange(ipranges[i][r])
+//@   ensures result1 == nil && result0 != nil
+//@   ensures [C06:offered-subnet-has-free-ip] len(ipranges) == 0 ==> forall s string :: s in result0 ==> exists k string :: k in ci.unallocatedFIPs && hasSubnet(ci.unallocatedFIPs[k].pool, s)
+//@   ensures [C06:offered-subnet-serves-every-range] forall s string, i int {s in result0, ipranges[i]} :: s in result0 && 0 <= i && i < len(ipranges) ==> servable(ci, s, ipranges[i])
+//@   modifies all
+//@   loop 0 invariant idxFromAny(ci, poolIndexSet) && subnetSet != nil && fresh(subnetSet) && len(subnetSet) == 0 && held[ptr(ci.cacheLock)] == 1
+//@   loop call:NodeSubnetsByIPRanges$1#0/0 invariant subnetSet != nil && forall s string :: s in subnetSet ==> exists k string :: k in ci.unallocatedFIPs && hasSubnet(ci.unallocatedFIPs[k].pool, s)
+//@   loop 1 invariant held[ptr(ci.cacheLock)] == 1 && subnetSet != nil && fresh(subnetSet) && (idx == 0 ==> len(subnetSet) == 0) && forall s string, i int {s in subnetSet, ipranges[i]} :: s in subnetSet && 0 <= i && i < idx ==> servable(ci, s, ipranges[i])
+//@   loop call:walkIPRanges#0/0,call:walkIPRanges#0/1 invariant idxFrom(ci, poolIndexSet, ranges) && ranges == ipranges[outer_idx] && 0 <= outer_idx && outer_idx < len(ipranges)
+//@   loop call:walkIPRanges#0/1 invariant 0 <= idx && idx < len(ranges) && r == ranges[idx] && last == nets.val(r.Last) && nets.val(r.First) <= first
+//@   loop call:NodeSubnetsByIPRanges$1#1/0 invariant subnetSet != nil && forall s string :: s in subnetSet ==> servable(ci, s, outer_ranges)
+//@   loop call:NodeSubnetsByIPRanges$1#2/0 invariant subnetSet != nil && forall s string :: s in subnetSet ==> servable(ci, s, outer_ranges)
